@@ -18,12 +18,13 @@ def main(argv=None):
     s.add_argument("pids", nargs="*")
     s.add_argument("--dir", default=None)
     s.add_argument("--tier", default="quick")
+    s.add_argument("--match", default=None, help="comma separated substrings of mutant names")
     args = ap.parse_args(argv)
 
     if args.cmd == "selftest":
         from . import selftest
 
-        return selftest.main(args.pids, args.dir, args.tier)
+        return selftest.main(args.pids, args.dir, args.tier, args.match)
 
     try:
         seed = int(os.environ.get("VERIF_SEED") or "1")
